@@ -16,8 +16,8 @@ ID = "C15"
 CASES = {"quick": 4000, "thorough": 60000}
 FLOOR = {"quick": 3600, "thorough": 55000}
 FLOOR_COUNTERS = {
-    "quick": {"all_points_inside_one_cell": 1200, "large_unit_precisions": 250, "image_shift_pairs": 3500, "half_cell_pairs": 600, "mahalanobis_calls": 3500, "triangle_triples": 3500, "tight_clouds_far_from_origin": 500, "cell_objects_edited_in_place": 3500, "mixed_layout_calls": 2500},
-    "thorough": {"all_points_inside_one_cell": 18000, "large_unit_precisions": 4000, "image_shift_pairs": 55000, "half_cell_pairs": 9000, "mahalanobis_calls": 55000, "triangle_triples": 55000, "tight_clouds_far_from_origin": 8000, "cell_objects_edited_in_place": 55000, "mixed_layout_calls": 40000},
+    "quick": {"all_points_inside_one_cell": 1200, "large_unit_precisions": 250, "image_shift_pairs": 3500, "half_cell_pairs": 600, "mahalanobis_calls": 3500, "triangle_triples": 3500, "tight_clouds_far_from_origin": 500, "cell_objects_edited_in_place": 3500, "mixed_layout_calls": 2500, "integer_typed_precisions": 300, "more_than_65536_pairs": 30},
+    "thorough": {"all_points_inside_one_cell": 18000, "large_unit_precisions": 4000, "image_shift_pairs": 55000, "half_cell_pairs": 9000, "mahalanobis_calls": 55000, "triangle_triples": 55000, "tight_clouds_far_from_origin": 8000, "cell_objects_edited_in_place": 55000, "mixed_layout_calls": 40000, "integer_typed_precisions": 5000, "more_than_65536_pairs": 500},
 }
 RULE = (
     "case = point sets X, Y in 1-6 dimensions with coordinates up to +-50 cells, positive rectangular cell (anisotropy up "
@@ -34,6 +34,9 @@ ASSUMPTIONS = [
 def gen(rng, tier, index):
     d = int(rng.integers(1, 7))
     nx, ny = int(rng.integers(1, 9)), int(rng.integers(1, 9))
+    if index % 80 == 11:  # more pairs in one call than an implementation would fold in one block (65536, 131072)
+        nx, ny = (int(rng.integers(257, 400)), int(rng.integers(257, 400))) if rng.random() < 0.7 else (1, int(rng.integers(66000, 140000)))
+        d = int(rng.integers(1, 4))
     cell = 10.0 ** rng.uniform(-1, 1, size=d)
     if rng.random() < 0.4:
         cell = cell * 10.0 ** rng.uniform(-1.5, 1.5, size=d)
@@ -55,8 +58,12 @@ def gen(rng, tier, index):
         Y[0] = X[0] + 0.5 * cell * rng.integers(0, 2, size=d) * rng.choice([-1, 1], size=d) + cell * rng.integers(-3, 4, size=d)
     npm = int(rng.integers(1, 4))
     P = np.stack([gens.spd(rng, d, cond=float(10.0 ** rng.uniform(0, 6))) for _ in range(npm)])
+    pint = bool(rng.random() < 0.12)
+    if pint:  # whole-number precisions (identity, diagonal, L L^T with integer L) stored with an integer dtype
+        Ls = [np.tril(rng.integers(-3, 4, size=(d, d))) + 4 * np.eye(d, dtype=int) for _ in range(npm)]
+        P = np.stack([(L_ @ L_.T).astype(float) for L_ in Ls])
     unit = 1.0
-    if rng.random() < 0.3:  # the same configuration measured in other units: lengths x u, precisions / u^2
+    if rng.random() < 0.3 and not pint:  # the same configuration measured in other units: lengths x u, precisions / u^2
         unit = float(2.0 ** int(rng.integers(-12, 20)))
         X, Y, cell, P = X * unit, Y * unit, cell * unit, P / unit**2
     return {
@@ -70,6 +77,7 @@ def gen(rng, tier, index):
         "unit": unit,
         "P": P,
         "half": half,
+        "pint": pint,
         "cell_edit": float(gens.pick(rng, (1.37, 0.61, 2.0, 1.001))),
         "cell_as_list": bool(rng.random() < 0.5),
         "layouts": [gens.pick(rng, ("C", "F", "strided", "readonly", "list")) for _ in range(2)],
@@ -83,6 +91,11 @@ def run(case, j):
     from skmatter.metrics import periodic_pairwise_euclidean_distances as ped
 
     X, Y, cell, kx, ky, Zp, P = case["X"], case["Y"], case["cell"], case["kx"], case["ky"], case["Zp"], case["P"]
+    if case.get("pint"):
+        P = np.asarray(P).astype(np.int64)  # the same whole-number precisions, integer-typed
+        j.note("integer_typed_precisions")
+    if len(X) * len(Y) > 65536:
+        j.note("more_than_65536_pairs")
     d = X.shape[1]
     aniso = float(cell.max() / cell.min())
     j.tag(f"dim:{d}", "anisotropic" if aniso > 30 else "isotropic-ish", "half-cell" if case["half"] else "generic", f"points:{case.get('where')}", "unit:1" if case.get("unit", 1.0) == 1.0 else "unit:other")
@@ -126,16 +139,16 @@ def run(case, j):
     wrapped = np.minimum(wrapped, cell - wrapped)
     j.close("equals the per-coordinate minimum-image distance", D, np.sqrt((wrapped**2).sum(-1)), tol)
     # Mahalanobis
-    I = np.eye(d)
+    I = np.eye(d, dtype=int) if case.get("pint") else np.eye(d)
     M1 = np.asarray(mah(X, Y, I, cell_length=cell))
     j.ok("Mahalanobis result has a leading axis per precision matrix", M1.shape == (1, len(X), len(Y)), M1.shape)
     j.close("identity precision == periodic Euclidean distance", M1[0], D, tol)
-    L = np.linalg.cholesky(P[0])
+    L = np.linalg.cholesky(np.asarray(P[0], dtype=float))
     Mw = np.asarray(mah(X, Y, P[0]))[0]
     # whitened separations computed from the pair differences (exact subtraction of nearby numbers), not from the
     # expanded quadratic form: the reference stays accurate for tight clouds far from the origin
     want = np.linalg.norm((X[:, None, :] - Y[None, :, :]) @ L, axis=-1)
-    condP = float(np.linalg.cond(P[0]))
+    condP = float(np.linalg.cond(np.asarray(P[0], dtype=float)))
     relw = 1e-9 + 40 * np.finfo(float).eps * d * condP  # delta^T P delta carries a relative error of about eps * d * cond(P)
     j.close("precision L L^T == Euclidean distance between L-whitened points (free space)", Mw, want, relw * want + 1e-300)
     if case.get("where") == "tight_far":
